@@ -23,6 +23,7 @@ func TestProp(t *testing.T) {
 		return
 	}
 	r.SetRule("enumerated: checksum type {12,15,16,19,20,-138} x data length 0..200 x usage set x K seeded keys (the last key of every type has the same bytes for all types of equal key length): GetChecksumHash compared with the reference and VerifyChecksum(correct)=true; " +
+		"for EVERY case the values other plausible derivations give for the same key, data and usage (reference checksum of the usage with reversed bytes, usage+-1, two seeded usages; HMAC under Ki, Ke or the underived key; for -138 the message type untranslated, big-endian, without the signature key) must verify false unless equal to the RFC value; " +
 		"for every 8th case negatives: every truncation, one-byte extensions, every single-bit flip of the checksum, other data, other key, other usage, empty and nil checksum must verify false; " +
 		"usage sweep: every key usage number 0..4095 (thorough: 0..65535 and 200 000 seeded 32-bit numbers) per type with a fixed key and 19 bytes of data, value and verification; " +
 		"keys of every wrong length 0..40 with nil, empty, all-zero and correct-for-another-length checksums must never verify; " +
@@ -88,6 +89,8 @@ func TestProp(t *testing.T) {
 	r.Require("neg_bitflip_false", 5000)
 	r.Require("neg_truncation_false", 500)
 	r.Require("iana_ids_checked", 401)
+	r.Require("neg_near_miss_false", 50000)
+	r.Require("neg_rc4_untranslated_msgtype_presented", 300)
 }
 
 func one(r *vh.Run, ctype, et int32, ki int, key []byte, n int, usage uint32, negatives bool) {
@@ -149,6 +152,17 @@ func one(r *vh.Run, ctype, et int32, ki int, key []byte, n int, usage uint32, ne
 		r.Inc(counter)
 	}
 	verify("exact", key, data, want, usage, true, "verify_exact_true")
+	// every case: the values other plausible derivations give for the same key, data and usage
+	for i, m := range nearMisses(rnd, pcommon.UsageSet, et, key, usage, data) {
+		if bytes.Equal(m.c, want) {
+			r.Inc("near_miss_equals_rfc_value_skipped")
+			continue
+		}
+		verify(nearMissLabel(i, m), key, data, m.c, usage, false, "neg_near_miss_false")
+		if et == kcrypto.RC4 && kcrypto.RC4Usage(usage) != usage && m.kind == "alt-rc4-msgtype-untranslated" {
+			r.Inc("neg_rc4_untranslated_msgtype_presented")
+		}
+	}
 	if !negatives {
 		return
 	}
